@@ -26,7 +26,9 @@ CASES = [
                      new="    category = feedback.category.lower()")]),
     dict(name='sort-reversed', kind='mutant', rule='R3', key='simple:stable-sort',
          edits=[dict(file=SI, old="feedbacks.sort(key=priority_key)", new="feedbacks.sort(key=priority_key, reverse=True)")]),
-    dict(name='full-sorts-ignored-first', kind='mutant', rule='R3', key='full:sorted-list-provenance',
+    # untriggered feedback never competes for the message and scores add up commutatively: listing the ignored
+    # feedback first is behaviour-preserving for C01 (an earlier, shape-based version of R3 flagged it - over-demanding)
+    dict(name='twin-full-lists-ignored-first', kind='twin',
          edits=[dict(file=FU, old="feedbacks = report.feedback + report.ignored_feedback", new="feedbacks = report.ignored_feedback + report.feedback")]),
     dict(name='add_feedback-inserts-front', kind='mutant', rule='R3', key='writer:feedback.insert',
          edits=[dict(file=RP, old="        self.feedback.append(feedback)\n        if not isinstance", new="        self.feedback.insert(0, feedback)\n        if not isinstance")]),
